@@ -597,3 +597,332 @@ mod gen {
     }
 }
 pub use gen::run as generator;
+
+// ------------------------------------------------------------------ C01 / C03(a)
+mod cup {
+    use super::*;
+    use crate::doubles::{public_keys, split_url};
+    use crate::signer;
+    use omaha_client::cup_ecdsa::{
+        Cupv2RequestHandler, Cupv2Verifier, Nonce, RequestMetadata, StandardCupv2Handler,
+    };
+    use omaha_client::protocol::request::RequestWrapper;
+    use omaha_client::request_builder::Intermediate;
+    use p256::ecdsa::signature::Signer;
+    use p256::ecdsa::{DerSignature, Signature};
+    use sha2::{Digest, Sha256};
+    use std::convert::TryFrom;
+
+    fn body(b: &str) -> Vec<u8> {
+        match b {
+            "b1" => br#"{"request":{"protocol":"3.0","app":[{"appid":"a"}]}}"#.to_vec(),
+            "b2" => br#"{"response":{"protocol":"3.0","app":[{"appid":"a","status":"ok"}]}}"#.to_vec(),
+            _ => vec![],
+        }
+    }
+    fn nonce(n: &str) -> [u8; 32] {
+        let mut x = [0u8; 32];
+        for (i, b) in x.iter_mut().enumerate() {
+            *b = if n == "n1" { 0x11 ^ (i as u8) } else { 0xa2 ^ (i as u8).wrapping_mul(3) };
+        }
+        x
+    }
+    fn kids(v: &Value) -> Vec<u64> {
+        v.as_array().map(|a| a.iter().filter_map(|x| x.as_u64()).collect()).unwrap_or_default()
+    }
+
+    fn raw_sign(key: u8, digest: &[u8]) -> Signature {
+        signer::key(key).sign(digest)
+    }
+
+    fn compose(x: &Value) -> Vec<u8> {
+        let mut h = Sha256::new();
+        for c in x["sOrder"].as_array().cloned().unwrap_or_default() {
+            match c.as_str().unwrap_or("") {
+                "req" => h.update(signer::sha(&body(x["sReq"].as_str().unwrap()))),
+                "resp" => h.update(signer::sha(&body(x["sResp"].as_str().unwrap()))),
+                _ => h.update(format!("{}:{}", x["sKid"], hex::encode(nonce(x["sNonce"].as_str().unwrap()))).as_bytes()),
+            }
+        }
+        h.finalize().to_vec()
+    }
+
+    fn sig_bytes(form: &str, sig: &Signature) -> Vec<u8> {
+        let der = sig.to_der().as_bytes().to_vec();
+        match form {
+            "twin" => {
+                // (r, n - s): the malleable twin, also valid under the key
+                let r = sig.r();
+                let s = sig.s();
+                let neg = -*s;
+                let t = Signature::from_scalars(*r, neg).expect("twin");
+                t.to_der().as_bytes().to_vec()
+            }
+            "bitflip" => {
+                let mut d = der;
+                let i = d.len() / 2;
+                d[i] ^= 0x01;
+                d
+            }
+            "trunc" => der[..der.len() - 1].to_vec(),
+            "trailing" => {
+                let mut d = der;
+                d.push(0);
+                d
+            }
+            "rawrs" => sig.as_ref().to_vec(),
+            "garbage" => vec![0x30, 0x06, 0x02, 0x01, 0x01, 0x02, 0x01],
+            _ => der,
+        }
+    }
+
+    fn etag_text(sig_hex: &str, hash_hex: &str, shape: &str, wrap: &str) -> String {
+        let core = match shape {
+            "upper" => format!("{}:{}", sig_hex.to_uppercase(), hash_hex.to_uppercase()),
+            "nocolon" => format!("{}{}", sig_hex, hash_hex),
+            "twocolons" => format!("{}:{}:00", sig_hex, hash_hex),
+            "nonhex" => format!("{}:{}z", sig_hex, &hash_hex[..hash_hex.len().saturating_sub(1)]),
+            "nonhexsig" => format!("z{}:{}", &sig_hex[1.min(sig_hex.len())..], hash_hex),
+            "oddlen" => format!("{}:{}", sig_hex, &hash_hex[..hash_hex.len().saturating_sub(1)]),
+            "emptysig" => format!(":{}", hash_hex),
+            "emptyhash" => format!("{}:", sig_hex),
+            _ => format!("{}:{}", sig_hex, hash_hex),
+        };
+        match wrap {
+            "quoted" => format!("\"{}\"", core),
+            "weak" => format!("W/\"{}\"", core),
+            "weakunclosed" => format!("W/\"{}", core),
+            "quoteonly" => "\"".to_string(),
+            _ => core,
+        }
+    }
+
+    fn response(etag: Option<&[u8]>, body: Vec<u8>) -> Option<http::Response<Vec<u8>>> {
+        let mut b = http::Response::builder().status(200);
+        if let Some(e) = etag {
+            b = b.header("ETag", http::HeaderValue::from_bytes(e).ok()?);
+        }
+        b.body(body).ok()
+    }
+
+    /// independent decoder of an ETag text: Some((sig bytes, hash bytes)) when it has the documented shape
+    fn decode_etag(t: &[u8]) -> Option<(Vec<u8>, Vec<u8>)> {
+        let inner: &[u8] = if t.len() >= 4 && t.starts_with(b"W/\"") && t.ends_with(b"\"") {
+            &t[3..t.len() - 1]
+        } else if t.len() >= 2 && t.starts_with(b"\"") && t.ends_with(b"\"") {
+            &t[1..t.len() - 1]
+        } else {
+            t
+        };
+        let c = inner.iter().position(|b| *b == b':')?;
+        let unhex = |s: &[u8]| -> Option<Vec<u8>> {
+            if s.len() % 2 != 0 {
+                return None;
+            }
+            let v = |c: u8| -> Option<u8> {
+                match c {
+                    b'0'..=b'9' => Some(c - b'0'),
+                    b'a'..=b'f' => Some(c - b'a' + 10),
+                    b'A'..=b'F' => Some(c - b'A' + 10),
+                    _ => None,
+                }
+            };
+            s.chunks(2).map(|p| Some(v(p[0])? * 16 + v(p[1])?)).collect()
+        };
+        Some((unhex(&inner[..c])?, unhex(&inner[c + 1..])?))
+    }
+
+    pub fn run(vec_path: &str, out_path: &str, seed: u64) {
+        let mut out = Out::new(out_path);
+        for v in vectors(vec_path) {
+            out.n += 1;
+            let r = guarded(|| -> Vec<(String, Value)> {
+                let mut bad = vec![];
+                match v["k"].as_str().unwrap_or("") {
+                    "ex" => {
+                        let x = &v["x"];
+                        let handler = StandardCupv2Handler::new(&public_keys(x["cfgLatest"].as_u64().unwrap(), &kids(&x["cfgHist"])));
+                        let digest = compose(x);
+                        let sig = raw_sign(x["sKey"].as_u64().unwrap() as u8, &digest);
+                        let carried = sig_bytes(x["form"].as_str().unwrap(), &sig);
+                        let retained = body(x["retained"].as_str().unwrap());
+                        let right = signer::sha(&retained);
+                        let hf = x["hashField"].as_str().unwrap();
+                        let hash_hex = if hf == "prefix" { hex::encode(&right[..16]) } else { hex::encode(signer::sha(&body(hf))) };
+                        let text = etag_text(&hex::encode(&carried), &hash_hex, x["shape"].as_str().unwrap(), x["wrap"].as_str().unwrap());
+                        let resp_body = body(x["resp"].as_str().unwrap());
+                        let n = nonce(x["nonce"].as_str().unwrap());
+                        let meta = RequestMetadata {
+                            request_body: retained.clone(),
+                            public_key_id: x["kidMeta"].as_u64().unwrap(),
+                            nonce: Nonce::from(n),
+                        };
+                        let resp = response(Some(text.as_bytes()), resp_body.clone()).expect("response");
+                        let got = handler.verify_response(&meta, &resp, x["kidPassed"].as_u64().unwrap());
+                        let accept = v["accept"].as_bool().unwrap();
+                        match (&got, accept) {
+                            (Ok(s), true) => {
+                                if s.as_bytes() != carried.as_slice() {
+                                    bad.push(("the accepted signature is not returned unchanged".into(), json!(hex::encode(s.as_bytes()))));
+                                }
+                            }
+                            (Err(_), false) => {}
+                            (Ok(_), false) => bad.push(("accepted an exchange that is not authentic".into(), json!(text))),
+                            (Err(e), true) => bad.push(("rejected an authentic exchange".into(), json!(format!("{:?}", e)))),
+                        }
+                        if let Ok(der) = DerSignature::try_from(carried.as_slice()) {
+                            let got2 = handler.verify_response_with_signature(&der, &retained, &resp_body, x["kidPassed"].as_u64().unwrap(), &Nonce::from(n));
+                            if got2.is_ok() != v["sigValid"].as_bool().unwrap() {
+                                bad.push(("verify_response_with_signature disagrees with the model".into(), json!(format!("{:?}", got2))));
+                            }
+                        }
+                    }
+                    "tok" => {
+                        let handler = StandardCupv2Handler::new(&public_keys(1, &[]));
+                        let req = body("b1");
+                        let rb = body("b2");
+                        let n = nonce("n1");
+                        let (e, _) = signer::etag(&signer::key(1), &req, &rb, &format!("1:{}", hex::encode(n)));
+                        let (sig_hex, hash_hex) = e.split_once(':').unwrap();
+                        let mut text = String::new();
+                        for t in v["ts"].as_array().cloned().unwrap_or_default() {
+                            text.push_str(match t.as_str().unwrap_or("") {
+                                "W/" => "W/",
+                                "Q" => "\"",
+                                ":" => ":",
+                                "hexlow" => "ab",
+                                "hexup" => "AB",
+                                "nonhex" => "zz",
+                                "SIG" => sig_hex,
+                                "HASH" => hash_hex,
+                                _ => " ",
+                            });
+                        }
+                        let meta = RequestMetadata { request_body: req, public_key_id: 1, nonce: Nonce::from(n) };
+                        let resp = response(Some(text.as_bytes()), rb).expect("response");
+                        let got = handler.verify_response(&meta, &resp, 1);
+                        if got.is_ok() != v["accept"].as_bool().unwrap() {
+                            bad.push(("ETag text verdict differs from the model".into(), json!({"text": text, "got": format!("{:?}", got.map(|_| ()))})));
+                        }
+                    }
+                    "url" => {
+                        let u = &v["u"];
+                        let q: Vec<String> = u["query"].as_array().map(|a| a.iter().map(|s| s.as_str().unwrap().to_string()).collect()).unwrap_or_default();
+                        let base = format!("{}://{}{}{}", u["scheme"].as_str().unwrap(), u["auth"].as_str().unwrap(), u["path"].as_str().unwrap(),
+                                           if q.is_empty() { String::new() } else { format!("?{}", q.join("&")) });
+                        for (latest, hist) in [(7u64, vec![]), (42u64, vec![7u64])] {
+                            let handler = StandardCupv2Handler::new(&public_keys(latest, &hist));
+                            let mut i = Intermediate { uri: base.clone(), headers: vec![], body: RequestWrapper::default() };
+                            let meta = match handler.decorate_request(&mut i) {
+                                Ok(m) => m,
+                                Err(e) => {
+                                    bad.push(("decoration failed on a well-formed service URL".into(), json!(format!("{} -> {:?}", base, e))));
+                                    continue;
+                                }
+                            };
+                            let d = &v["d"];
+                            let exp_pre = format!("{}://{}{}", d["scheme"].as_str().unwrap(), d["auth"].as_str().unwrap(), d["path"].as_str().unwrap());
+                            let (pre, pairs) = split_url(&i.uri);
+                            let n: [u8; 32] = meta.nonce.into();
+                            let mut exp_pairs = q.clone();
+                            exp_pairs.push(format!("cup2key={}:{}", latest, hex::encode(n)));
+                            if pre != exp_pre || pairs != exp_pairs {
+                                bad.push(("decorated URL is not the service URL plus exactly one cup2key parameter".into(), json!({"base": base, "got": i.uri})));
+                            }
+                            if meta.public_key_id != latest || Some(meta.request_body.clone()) != i.serialize_body().ok() {
+                                bad.push(("request metadata does not hold the latest key id / the bytes sent".into(), json!(base)));
+                            }
+                            let hexn = hex::encode(n);
+                            if hexn.len() != 64 || hexn.chars().any(|c| !c.is_ascii_hexdigit() || c.is_ascii_uppercase()) {
+                                bad.push(("nonce is not 64 lower-case hex digits".into(), json!(hexn)));
+                            }
+                        }
+                    }
+                    _ => {
+                        // single-bit flips of every field of genuine exchanges
+                        use rand::{Rng, SeedableRng};
+                        let mut rng = rand::rngs::StdRng::seed_from_u64(seed.wrapping_mul(7919).wrapping_add(v["i"].as_u64().unwrap_or(0)));
+                        let kid: u64 = [1u64, 2, 3][rng.gen_range(0..3)];
+                        let handler = StandardCupv2Handler::new(&public_keys(kid, &[if kid == 3 { 1 } else { kid + 1 }]));
+                        let req: Vec<u8> = (0..rng.gen_range(0..40)).map(|_| rng.gen()).collect();
+                        let rb: Vec<u8> = (0..rng.gen_range(0..40)).map(|_| rng.gen()).collect();
+                        let mut n = [0u8; 32];
+                        rng.fill(&mut n);
+                        let c2k = format!("{}:{}", kid, hex::encode(n));
+                        let (etag, sig) = signer::etag(&signer::key(kid as u8), &req, &rb, &c2k);
+                        let hash = signer::sha(&req);
+                        let check = |what: &str, req: &[u8], rb: &[u8], n: [u8; 32], kid: u64, etag: &[u8], exp: bool, bad: &mut Vec<(String, Value)>| {
+                            let resp = match response(Some(etag), rb.to_vec()) {
+                                Some(r) => r,
+                                None => return,
+                            };
+                            let meta = RequestMetadata { request_body: req.to_vec(), public_key_id: kid, nonce: Nonce::from(n) };
+                            let got = handler.verify_response(&meta, &resp, kid);
+                            if got.is_ok() != exp {
+                                bad.push((format!("single-bit flip of the {}: verdict {:?}, expected accept={}", what, got.map(|_| ()), exp), json!(String::from_utf8_lossy(etag))));
+                            }
+                        };
+                        check("nothing (genuine)", &req, &rb, n, kid, etag.as_bytes(), true, &mut bad);
+                        for bit in 0..rb.len() * 8 {
+                            let mut m = rb.clone();
+                            m[bit / 8] ^= 1 << (bit % 8);
+                            check("response body", &req, &m, n, kid, etag.as_bytes(), false, &mut bad);
+                        }
+                        for bit in 0..req.len() * 8 {
+                            let mut m = req.clone();
+                            m[bit / 8] ^= 1 << (bit % 8);
+                            check("retained request body", &m, &rb, n, kid, etag.as_bytes(), false, &mut bad);
+                        }
+                        for bit in 0..256 {
+                            let mut m = n;
+                            m[bit / 8] ^= 1 << (bit % 8);
+                            check("nonce", &req, &rb, m, kid, etag.as_bytes(), false, &mut bad);
+                        }
+                        for bit in 0..64 {
+                            check("key id", &req, &rb, n, kid ^ (1u64 << bit), etag.as_bytes(), false, &mut bad);
+                        }
+                        for bit in 0..sig.len() * 8 {
+                            let mut m = sig.clone();
+                            m[bit / 8] ^= 1 << (bit % 8);
+                            let e = format!("{}:{}", hex::encode(&m), hex::encode(&hash));
+                            check("DER signature", &req, &rb, n, kid, e.as_bytes(), false, &mut bad);
+                        }
+                        for bit in 0..256 {
+                            let mut m = hash.clone();
+                            m[bit / 8] ^= 1 << (bit % 8);
+                            let e = format!("{}:{}", hex::encode(&sig), hex::encode(&m));
+                            check("request hash", &req, &rb, n, kid, e.as_bytes(), false, &mut bad);
+                        }
+                        for wrap in ["plain", "quoted", "weak"] {
+                            let text = match wrap {
+                                "quoted" => format!("\"{}\"", etag),
+                                "weak" => format!("W/\"{}\"", etag),
+                                _ => etag.clone(),
+                            };
+                            let t = text.as_bytes();
+                            for bit in 0..t.len() * 8 {
+                                let mut m = t.to_vec();
+                                m[bit / 8] ^= 1 << (bit % 8);
+                                // the expected verdict comes from decoding the flipped text independently:
+                                // a flipped hex-case bit decodes to the same bytes and must still be accepted
+                                let exp = decode_etag(&m).map(|(s, h)| s == sig && h == hash).unwrap_or(false);
+                                check("ETag text", &req, &rb, n, kid, &m, exp, &mut bad);
+                            }
+                        }
+                    }
+                }
+                bad
+            });
+            match r {
+                Ok(bads) => {
+                    for (w, g) in bads {
+                        out.bad(&w, &v, g);
+                    }
+                }
+                Err(p) => out.bad("panic in the verifier / decorator", &v, json!(p)),
+            }
+        }
+        out.finish();
+    }
+}
+pub use cup::run as cup;
